@@ -69,13 +69,16 @@ Definition compile_compare (root : string) (args : list (pexpr L)) : option (pex
       end
   end.
 
-(* (chainc a op1 b op2 c ...) *)
+(* (chainc a op1 b op2 c ...): the pattern is [FORM, oneplus(SYM + FORM)], so a call with no
+   operator-operand pair is a syntax error *)
 Definition compile_chainc (a : pexpr L) (rest : list (string * pexpr L)) : option (pexpr L) :=
+  match rest with [] => None | _ =>
   (fix go (rest : list (string * pexpr L)) (acc : list (cop * pexpr L)) : option (pexpr L) :=
      match rest with
      | [] => Some (PCmp a (rev acc))
      | (s, e) :: r => match lookup s c_ops with Some c => go r ((c, e) :: acc) | None => None end
-     end) rest [].
+     end) rest []
+  end.
 
 Definition compile_unary (root : string) (a : pexpr L) : option (pexpr L) :=
   option_map (fun u => PUn u a) (lookup root unary_operator_ops).
